@@ -56,6 +56,13 @@ func (r *ReceivedMessageReader[C]) C() chan<- *pool.Message {
 // If the client is closed, the loop also closes.
 func (r *ReceivedMessageReader[C]) loop(loopDone chan struct{}, readingMessages *atomic.Bool) {
 	for {
+		// A loop that was replaced while it processed a message must not take another one: the queue belongs to the
+		// loop that replaced it (the select below picks randomly when a message is waiting as well).
+		select {
+		case <-loopDone:
+			return
+		default:
+		}
 		select {
 		// if the loop is replaced, the old loop will be closed
 		case <-loopDone:
